@@ -31,19 +31,21 @@ def gen_project(rng, pi):
     for i in range(n):
         sub = rng.random() < 0.25
         name = ("sub/" if sub else "") + "f%d.ucg" % i
-        kind = rng.choices(["entry", "lib", "both", "fail_run", "fail_static", "fail_parse", "fail_after_out"],
-                           [30, 22, 22, 8, 6, 6, 6])[0]
+        kind = rng.choices(["entry", "lib", "both", "fail_run", "fail_static", "fail_parse", "fail_after_out", "imports_missing"],
+                           [30, 22, 22, 8, 5, 5, 6, 3])[0]
         imports = []
         if names:
             for j in rng.sample(range(len(names)), min(len(names), rng.choice([0, 1, 1, 2, 3]))):
                 imports.append(names[j])
-        lines = []
+        lines = ['let marker = TRACE "EVAL:%s";' % name]
         fields = ['me = "%s"' % name, "k = %d" % rng.randint(0, 99)]
+        rels = []
         for q, imp in enumerate(imports):
             # path relative to this file's directory
             rel = os.path.relpath(imp, os.path.dirname(name) or ".")
             if not rel.startswith(".") and rng.random() < 0.6 and not sub:
                 rel = rng.choice(SPELL) % rel
+            rels.append(rel)
             lines.append('let i%d = import "%s";' % (q, rel))
             fields.append("d%d = i%d.shared.k" % (q, q))
             if rng.random() < 0.4:
@@ -74,8 +76,22 @@ def gen_project(rng, pi):
         elif kind == "fail_parse":
             fail = "parse"
             lines.append("let boom = {a = 1;")
-        files[name] = {"text": "\n".join(lines) + "\n", "imports": imports, "outs": outs, "fail": fail, "kind": kind}
+        abs_imports = [os.path.join(os.path.dirname(name), r) for r in rels]
+        if kind == "imports_missing":
+            lines.insert(1, 'let gone = import "nowhere.ucg";')
+            abs_imports.insert(0, os.path.join(os.path.dirname(name), "nowhere.ucg"))
+        files[name] = {"text": "\n".join(lines) + "\n", "imports": imports, "raw_imports": abs_imports, "outs": outs, "fail": fail, "kind": kind}
         names.append(name)
+    if rng.random() < 0.12 and len(names) >= 2:
+        # plant a cycle: an early file imports a later one (which may or may not lead back to it)
+        a, b = sorted(rng.sample(range(len(names)), 2))
+        fa = files[names[a]]
+        rel = os.path.relpath(names[b], os.path.dirname(names[a]) or ".")
+        ls = fa["text"].split("\n")
+        ls.insert(1, 'let back = import "%s";' % rel)
+        fa["text"] = "\n".join(ls)
+        fa["raw_imports"].insert(0, os.path.join(os.path.dirname(names[a]), rel))
+        fa["imports"].insert(0, names[b])
     # which files are named on the command line: all entries/both/failing, sometimes libs too
     built = [nm for nm in names if files[nm]["kind"] != "lib" or rng.random() < 0.3]
     if len(built) < 2:
@@ -123,6 +139,8 @@ def failed_files(d, err):
         if m:
             cur = os.path.normpath(m.group(1))
             continue
+        if line.startswith("TRACE: "):
+            continue
         if cur is not None and line.strip() and line.strip() != "Build results in no artifacts.":
             res[cur] = (res.get(cur, "") + "\n" + line).strip()
     return res
@@ -135,10 +153,18 @@ def run_project(job):
         open(os.path.join(d, nm), "w").write(f["text"])
     alone = {}
     runs = 0
+    obs = []        # what every invocation did, for the comparison with the model
+
+    def observe(args, rc, err):
+        ff = failed_files(d, err)
+        obs.append({"files": list(args), "rc": rc, "status": [os.path.normpath(a) not in ff for a in args],
+                    "evals": re.findall(r'^TRACE: "EVAL:([^"\s]+)" = ', err, re.M),
+                    "written": sorted(os.path.splitext(k)[0] + ".ucg" for k in snapshot(d))})
     for nm in sorted(set(built)):
         clean(d)
         rc, out, err = ucg(d, ["build", nm])
         runs += 1
+        observe([nm], rc, err)
         alone[nm] = {"ok": rc == 0, "artifacts": snapshot(d), "err": failed_files(d, err).get(os.path.normpath(nm), err.strip())}
         if rc not in (0, 1):
             return {"why": "`ucg build %s` ended with status %d" % (nm, rc), "stderr": err[-600:], "order": [nm]}, runs
@@ -158,6 +184,8 @@ def run_project(job):
         for rep in (1, 2):
             rc, out, err = ucg(d, ["build"] + list(perm))
             runs += 1
+            if rep == 1:
+                observe(perm, rc, err)
             if rc not in (0, 1):
                 return {"why": "`ucg build %s` ended with status %d" % (" ".join(perm), rc), "stderr": err[-600:], "order": list(perm), "run": rep}, runs
             ff = failed_files(d, err)
@@ -198,7 +226,7 @@ def run_project(job):
         if got.get(k) != v:
             return {"why": "artifact %s of `ucg build -r .` differs from the stand-alone build" % k, "order": ["-r", "."],
                     "batch": got.get(k, b"<absent>").decode("utf-8", "replace")[:400], "alone": v.decode("utf-8", "replace")[:400]}, runs
-    return {"msg_diffs": msg_diffs}, runs
+    return {"msg_diffs": msg_diffs, "obs": obs}, runs
 
 
 def run(tier, seed):
@@ -251,6 +279,47 @@ def run(tier, seed):
         else:
             msg_diffs += res.get("msg_diffs", 0)
     shutil.rmtree(root, ignore_errors=True)
+    # ---- the Coq model of one invocation (env/Batch.v, extracted) on the same projects and file lists
+    okm, mmsg = C.build_model_runner()
+    model_cases = 0
+    if not okm:
+        broken.append({"extraction": mmsg[-1500:]})
+    else:
+        lines, meta = [], []
+        for (d, files, built, perms, _), (res, runs) in zip(jobs, results):
+            if "obs" not in res or any(f["fail"] in ("static", "parse") for f in files.values()):
+                continue
+            proj = "(" + " ".join("(%s (%s) %d %d)" % (C.hexs(os.path.join(d, nm)), " ".join(C.hexs(os.path.join(d, i)) for i in f["raw_imports"]),
+                                                       f["outs"], 1 if f["fail"] else 0) for nm, f in files.items()) + ")"
+            for o in res["obs"]:
+                lines.append("(0 %s (%s))" % (proj, " ".join(C.hexs(os.path.join(d, a)) for a in o["files"])))
+                meta.append((d, files, o))
+        outs = C.model("batch", lines) if lines else []
+        model_cases = len(lines)
+        import sx
+        for (d, files, o), out in zip(meta, outs):
+            try:
+                t = sx.parse(out)
+                m_rc = int(t[0])
+                m_status = [x == "ok" for x in t[1]]
+                m_evals = [os.path.relpath(C.unhex(x).decode("utf-8"), d) for x in t[2]]
+                m_written = sorted(set(os.path.relpath(C.unhex(x).decode("utf-8"), d) for x in t[3]))
+            except Exception as e:
+                real.append({"why": "model runner: %r on %r" % (e, out[:200]), "order": o["files"], "files": {k: v["text"] for k, v in files.items()}})
+                continue
+            diffs = []
+            if m_rc != o["rc"]:
+                diffs.append("exit status %d, model %d" % (o["rc"], m_rc))
+            if m_status != o["status"]:
+                diffs.append("per-file success %r, model %r (%r)" % (o["status"], m_status, t[1]))
+            if m_evals != [os.path.normpath(e) for e in o["evals"]]:
+                diffs.append("evaluation sequence %r, model %r" % (o["evals"], m_evals))
+            if m_written != [os.path.normpath(w) for w in o["written"]]:
+                diffs.append("artifacts written for %r, model %r" % (o["written"], m_written))
+            if diffs:
+                real.append({"why": "the model of the invocation and the binary disagree: " + "; ".join(diffs), "order": o["files"],
+                             "files": {k: v["text"] for k, v in files.items()}, "built": o["files"], "correspondence": "env/Batch.v batch vs ucg build"})
+    cov["model_invocations_compared"] = model_cases
     cov["evaluations"] = total_runs
     cov["distinct_nontrivial"] = nproj
     cov["rule"] = ("generated projects of 2..6 files (entry files with out json/yaml/toml/env/flags, shared libraries, files that are both built "
